@@ -83,6 +83,25 @@ Fixpoint replay (dst : path) (ss : list sobs) (t : list op) : bool :=
       prefix_eqb (fst mr) t && (outcome_class (snd mr) =? res) && replay dst r (skipn_N t (fst mr))
   end.
 
+(** Index of the first save description the trace does not follow (for
+    replay files); [Some (length ss)]: operations left over at the end. *)
+Fixpoint first_bad_save (dst : path) (ss : list sobs) (t : list op) (k : N) : option N :=
+  match ss with
+  | [] => match t with [] => None | _ => Some k end
+  | SAny n :: r => first_bad_save dst r (skipn (N.to_nat n) t) (k + 1)
+  | SProbe fd1 p1 fd2 p2 rf :: r =>
+      let m := probe_ops fd1 p1 fd2 p2 rf in
+      if prefix_eqb m t then first_bad_save dst r (skipn_N t m) (k + 1) else Some k
+  | SSave upd fd tmp ending fault res :: r =>
+      let done := match t with Open _ _ _ :: t' => leading_writes fd t' | _ => [] end in
+      let e := if ending =? 0 then EReplace else if ending =? 1 then ESkip else EAbort AtRead in
+      let p := {| p_open := fault =? 1; p_write := None; p_sync := fault =? 2; p_close := false;
+                  p_rename := fault =? 3 |} in
+      let mr := save_ops (negb upd) fd tmp dst done e p in
+      if prefix_eqb (fst mr) t && (outcome_class (snd mr) =? res)
+      then first_bad_save dst r (skipn_N t (fst mr)) (k + 1) else Some k
+  end.
+
 Inductive case :=
   (* dst; further names that may remain; files present at the start; the
      recorded operations; byte mode (every element is a byte) or chunk mode;
@@ -136,6 +155,7 @@ Definition mismatches := Base.Run.mismatches case_ok.
 
 (** For replay files: the seven verdicts, the index of the first unsafe
     operation, the index of the first operation after which dst is gone, the
+    index of the first save the save model does not reproduce, the
     names left over, and (byte mode) the visible states that are not a
     published version. *)
 Definition explain (c : case) :=
@@ -143,7 +163,7 @@ Definition explain (c : case) :=
   | CTrace dst keep ents t bm ord lens vers saves =>
       let s := boot ents in
       let av := all_versions s t dst in
-      (checks c, first_unsafe dst s t 0, first_absent dst s t 0,
+      (checks c, first_unsafe dst s t 0, first_absent dst s t 0, first_bad_save dst saves t 0,
        filter (fun p => match aget (dir_cur (run s t)) p with Some _ => negb (existsb (N.eqb p) (dst :: keep)) | None => false end)
               (created s t),
        map (option_map (byte_len bm)) av,
